@@ -67,6 +67,10 @@ def kf_d10(f, k):
         return False
     s = f["input"]["s"]
     norm = norm_attr if f.get("position") == "attr" else norm_text
+    if not is_clean(s) and "Text.escape().unescape()" in str(f.get("what")):
+        # on that path a spelled entity can be taken for markup twice: once by unescape() (when escape() had other
+        # characters to encode and flagged the text) and once more when the tree is written and read
+        return f["observed"] in (norm(collapse(s)), norm(collapse(collapse(s))))
     return (not is_clean(s)) and f["observed"] == norm(collapse(s))
 
 
